@@ -132,6 +132,12 @@ def do(op, a):
                 return [t_sid(Sid(path=str(p), config=(a[2] or None)))]
             return out(g)
         return with_sid(a[0], f)
+    if op == 'path_owner':
+        def f():
+            x = Sid(path=a[0], config=(a[1] or None))
+            p = x.path(a[1] or None)
+            return [t_sid(x), [] if p is None else [str(p)]]
+        return out(f)
     if op == 'eq':
         return with_sid(a[0], lambda x: with_sid(a[1], lambda y: t_bool(x == y)))
     if op == 'to_dict':
